@@ -214,7 +214,9 @@ impl<'a, F: IVP> SolOut for DefaultSolOut<'a, F> {
                             for _ in 0..MAXITER {
                                 #[cfg(feature = "verif")]
                                 crate::verif::tick(crate::verif::BRENT_LOOP);
-                                if fb * fc > 0.0 {
+                                // (compare the signs, not the product: fb * fc underflows to zero
+                                // for event functions of magnitude below ~1e-154)
+                                if (fb > 0.0 && fc > 0.0) || (fb < 0.0 && fc < 0.0) {
                                     c = a;
                                     fc = fa;
                                     d = b - a;
